@@ -112,9 +112,11 @@ func c15Remove(name string) error {
 func c15WriteString(fd *os.File, s string) (int, error) {
 	h := c15Open[fd]
 	if c15Tick() {
-		// killed during the write: an arbitrary prefix reached the file
-		k := verifrt.Choose("written-prefix", len(s)+1)
-		h.f.data = append(h.f.data, s[:k]...)
+		// killed around the write: a single write(2) to a regular file is not torn by a
+		// kill (it is not interruptible half-way); it either happened or it did not
+		if verifrt.Bool("write-took-effect") {
+			h.f.data = append(h.f.data, s...)
+		}
 		panic(c15Crash{})
 	}
 	h.f.data = append(h.f.data, s...)
